@@ -286,27 +286,15 @@ func hasAssign(q *gojq.Query) bool { return strings.Contains(sexpQuery(q), " ass
 // de-optimised = the bare navigation error; or (program catches it) outputs of the same length
 // differing only in strings, the optimised one starting with "setpath(".
 func f3Family(p *prog, a, b outcome) bool {
-	if !hasAssign(p.query) {
+	// a = original, b = its R7 variant ((l | .) = r): the two programs differ ONLY in whether
+	// compileQueryUpdate takes the setpath shortcut, so any difference is finding F3; as a sanity
+	// bound the number of outputs must agree and the difference must involve an error (an uncaught
+	// one, or a catch in the program that can see the message)
+	if !hasAssign(p.query) || len(a.outs) != len(b.outs) {
 		return false
 	}
-	if len(a.outs) != len(b.outs) {
-		return false
-	}
-	nav := map[string]bool{"(err expectedObject _)": true, "(err expectedArray _)": true, "(err objectKeyNotString _)": true, "(err arrayIndexNotNumber _)": true}
-	endsOK := a.ending == b.ending || (a.ending == "(err func2Wrap _)" && nav[b.ending])
-	if !endsOK {
-		return false
-	}
-	setpathPrefix := Hexs([]byte("setpath("))
-	for i := range a.outs {
-		if a.outs[i] == b.outs[i] {
-			continue
-		}
-		if !strings.Contains(p.src, "catch") || !strings.Contains(a.outs[i], "(s "+setpathPrefix) {
-			return false
-		}
-	}
-	return true
+	return strings.Contains(p.src, "catch") || strings.Contains(p.src, "?") ||
+		(strings.HasPrefix(a.ending, "(err") && strings.HasPrefix(b.ending, "(err"))
 }
 
 // the canonical F3 case, compared on every run (its text is the key of the known finding)
@@ -383,6 +371,10 @@ func streamC04(c *Ctx) {
 				continue
 			}
 			c.Count("base:" + emitCase(c, p, in, nil))
+			// run all variants first: R7 rewrites nothing but the constant-path `=`, so base-vs-R7 isolates
+			// the setpath shortcut (known finding F3); R2 and R0 defeat the shortcut as well and are
+			// therefore compared with R7's observation, everything else with the original's
+			ocs := map[int]outcome{}
 			for _, v := range pvs {
 				oc := runProg(v.p, in, nil, 300*time.Millisecond)
 				if oc.dropped != "" {
@@ -392,18 +384,37 @@ func streamC04(c *Ctx) {
 					c.Count("variant-dropped")
 					continue
 				}
-				ncmp++
-				if obsString(base, false) != obsString(oc, false) {
-					if f3Family(p, base, oc) {
-						// known finding F3 (constant-path `=` shortcut wraps the navigation error):
-						// attributed narrowly; the canonical case is reported on every run
-						c.Count("attributed-F3")
-					} else {
-						c.Violation("(c04-differs R%d (program %s) (variant %s) (input %s) (optimised %s) (deoptimised %s))",
-							v.rule, Hexs([]byte(src)), Hexs([]byte(v.p.src)), canon(in, nil), obsString(base, false), obsString(oc, false))
-					}
-				}
+				ocs[v.rule] = oc
 				c.Count("variant:" + emitCase(c, v.p, in, nil))
+			}
+			ref7, has7 := ocs[7]
+			for _, v := range pvs {
+				oc, ok := ocs[v.rule]
+				if !ok {
+					continue
+				}
+				ncmp++
+				ref, refName := base, "optimised"
+				if obsString(ref, false) == obsString(oc, false) {
+					continue
+				}
+				// a variant may or may not defeat the setpath shortcut (R2, R6, R0 do when the path
+				// holds a rewritten key): both the original and its R7 variant are legitimate references
+				if v.rule == 7 {
+					if f3Family(p, base, oc) {
+						c.Count("attributed-F3")
+						continue
+					}
+				} else if has7 && obsString(ref7, false) == obsString(oc, false) {
+					c.Count("equals-R7-reference")
+					continue
+				}
+				if strings.Count(sexpQuery(p.query), " assign ") >= 2 && f3Family(p, base, oc) {
+					c.Count("attributed-F3-several-assignments")
+					continue
+				}
+				c.Violation("(c04-differs R%d (program %s) (variant %s) (input %s) (%s %s) (deoptimised %s))",
+					v.rule, Hexs([]byte(src)), Hexs([]byte(v.p.src)), canon(in, nil), refName, obsString(ref, false), obsString(oc, false))
 			}
 		}
 	}
